@@ -107,7 +107,10 @@ impl TcpListener {
 /// Client side: connect; `cap` is the per-direction buffer (back-pressure).
 pub fn connect(server: SocketAddr, client: SocketAddr, cap: usize) -> io::Result<DuplexStream> {
     let tx = NET
-        .with(|n| n.borrow().listeners.get(&server).cloned())
+        .with(|n| {
+            let n = n.borrow();
+            n.listeners.get(&server).or_else(|| n.listeners.get(&crate::net::wildcard_of(server))).cloned()
+        })
         .ok_or_else(|| io::Error::from(io::ErrorKind::ConnectionRefused))?;
     let (c, s) = tokio::io::duplex(cap.max(1));
     tx.send((TcpStream { inner: s, faulty: true }, client))
@@ -196,7 +199,10 @@ fn transmit(from: SocketAddr, to: SocketAddr, data: &[u8]) -> u64 {
     id
 }
 fn enqueue(d: Dgram) {
-    let tx = NET.with(|n| n.borrow().udp.get(&d.dst).cloned());
+    let tx = NET.with(|n| {
+        let n = n.borrow();
+        n.udp.get(&d.dst).or_else(|| n.udp.get(&crate::net::wildcard_of(d.dst))).cloned()
+    });
     if let Some(tx) = tx {
         NET.with(|n| n.borrow_mut().log.delivered.push(d.clone()));
         let _ = tx.send(d);
